@@ -474,7 +474,8 @@ class Cid(object):
         if field_example != "":
             try:
                 field_format.example = field_example
-            except errors.FieldValueError as error:
+            except (errors.FieldValueError, errors.RangeValueError) as error:
+                # NOTE: Field formats building on ranges might pass on a RangeValueError.
                 self._location.set_cell(2)
                 raise errors.InterfaceError(
                     "cannot validate example for field %s: %s" % (_compat.text_repr(field_name), error), self._location
